@@ -297,6 +297,9 @@ func ConvertString(octetString ...string) ([]string, error) {
 
 	for _, s := range octetString {
 		data := []byte(s)
+		if len(data) < startOfDataIdx+1 {
+			return nil, fmt.Errorf("%s: ber encoded string is too short: %w", op, ErrInvalidParameter)
+		}
 
 		switch {
 		case
@@ -321,6 +324,9 @@ func ConvertString(octetString ...string) ([]string, error) {
 // copied directly from github.com/go-asn1-ber/asn1-ber@v1.5.4/length.go
 // it has an MIT license: https://github.com/go-asn1-ber/asn1-ber/blob/master/LICENSE
 func readLength(bytes []byte) (length int, read int, err error) {
+	if len(bytes) == 0 {
+		return 0, 0, errors.New("missing length byte")
+	}
 	// length byte
 	b := bytes[0]
 	read++
@@ -350,6 +356,9 @@ func readLength(bytes []byte) (length int, read int, err error) {
 		// Accumulate into a 64-bit variable
 		var length64 int64
 		for i := 0; i < lengthBytes; i++ {
+			if read >= len(bytes) {
+				return 0, read, errors.New("long-form length is truncated")
+			}
 			b = bytes[read]
 			read++
 
